@@ -987,10 +987,12 @@ impl<'a, 'b, 's> Sim<'a, 'b, 's> {
                         }
 
                         r.deadline = now + timeout;
-                        r.state = if matches!(state, RState::Sending | RState::SendingRetried) {
-                            RState::SendingRetried
-                        } else {
-                            RState::Queued
+                        // Only a frame that is waiting for its response is re-queued; in every other
+                        // state (not transmitted yet, being transmitted, claimed by the receive
+                        // side) the retry just re-arms the deadline.
+                        r.state = match &state {
+                            RState::OnWire => RState::Queued,
+                            other => other.clone(),
                         };
                         r.error_paths.insert("retry");
 
@@ -999,7 +1001,7 @@ impl<'a, 'b, 's> Sim<'a, 'b, 's> {
                         let st_now = verif::slot(self.pdu_loop, usize::from(slot)).state;
 
                         check!(
-                            st_now == ST_SENDABLE,
+                            st_now == ST_SENDABLE || state != RState::OnWire,
                             "C06",
                             "retry-not-requeued",
                             "request {id}: deadline expired with retries left but the frame was not made {want_state} again (slot state {st_now}); it will never be retransmitted"
